@@ -1,9 +1,35 @@
 ID = 'C33'
 ENTRY = dict(
     props_v='Props/C33.v', harness='c33',
-    level_text='(being completed)',
-    level_note='',
-    technique='Coq proof (refinement invariant, induction over operation sequences) over a hand-transcribed bookkeeping model; K2 structural + K4 oracle-replay correspondence against the real store',
-    trusted_base=[],
-    assumptions=[],
+    level_text=('Proof, unbounded, PARTIAL by design (DESIGN.md section 8): only the item / tombstone / version bookkeeping of ai/vector is '
+                'modelled (Vector.v: Content store, Vectors store of the active version, TempVectors staging, active version, the version-resolution '
+                'rules of Get/Delete/upsertItem/Query, Consolidate and phases 3-4 of Optimize); centroid assignment, probed centroids and similarity '
+                'are oracles the theorems quantify over. For EVERY operation sequence in the default configuration (index mode, deduplication on) and every '
+                'oracle: C33_get_partial (Get = latest (vector, payload) if live, error otherwise: refinement to the map id |-> item, by an invariant proved '
+                'by induction over the run), C33_live_set_partial (a Content scan lists exactly the live ids, once), C33_optimize_preserves_partial '
+                '(every Get and the live set are unchanged by Optimize: no loss, duplicate, resurrection), C33_query_partial (at most k hits, distinct ids, '
+                'all live, all pass the filter, score = sim(q, latest stored vector), non-increasing, nothing better among the probed candidates skipped), '
+                'C33_query_at_most_k (any mode), C33_reference_latest, C33_translated_constants. The unrestricted statements are FALSE of the model and of '
+                'the code: C33_optimize_resurrects_refuted and C33_optimize_loses_staged_refuted (staged ingestion, both reproduced on the real store), '
+                'C33_query_distinct_dedup_off_refuted (documented ghost vectors with deduplication off). Tie: K2 + K4 differential runs of the real store '
+                '(every Get, full dumps of Content / Vectors / TempVectors / active version after every session, every query hit list checked to be a valid '
+                'top-k of the model\'s candidates) in index AND staged mode, dedup on and off; translator re-reads the Consolidate batch size, the phase-3 '
+                'switch and the probe count.'),
+    level_note=('Trusted: Coq kernel; the hand transcription of store.go / store.optimize.go / store.consolidate.go into Vector.v (checked only by the '
+                'differential run); the harness (generators, dumps, float32 cosine recomputed independently, score/ distance codes); the translator for three '
+                'constants. Outside the model: float32 geometry, k-means, closest-centroid search (oracles, read back from the store), centroid vector-count '
+                'bookkeeping, locking and grace period of Optimize, crash recovery of a failed Optimize, SplitCentroid.'),
+    technique='Coq proof (refinement invariant, induction over operation sequences, fold invariant for the Optimize migration) over a hand-transcribed bookkeeping model; K2 structural + K4 oracle-replay correspondence against the real store; direct oracle against the reference map',
+    trusted_base=[
+        'modelled by hand, not generated: ai/vector bookkeeping (Vector.v); conformance is established by the differential run only',
+        'oracles (quantified over in the theorems, read back from the real store in the run): centroid assignment (cid, distance) of every upsert / consolidation / migration, the probed centroids of a query (add-only seam /repo/ai/vector/verif_c33.go), similarity scores (float32 cosine recomputed by the harness)',
+        'theorem hypothesis op_index_dedup: Config.EnableIngestionBuffer = false, deduplication on, the assignment oracle never answers centroid id 0; section-free parameter close (the 1e-3 distance closeness of phase 3) is only required to be reflexive',
+        'translator tools/gen/vector.go: Consolidate batchSize, initialize useTempVectors, Query probe count',
+        'B-tree stores are modelled as finite maps with the documented Add/Upsert/UpdateKey/Remove semantics of /repo/btree (unique keys, Upsert replaces key and value)',
+    ],
+    assumptions=[
+        'one process, no concurrent writers on the domain, Optimize runs to completion (no crash between its phases)',
+        'payloads are JSON objects that unmarshal (the harness uses {"p": n})',
+        'distances are non-negative finite float32 values (bit patterns order like the values)',
+    ],
 )
